@@ -210,8 +210,8 @@ def pit_case(torch, seed, style):
                 if cs != S['value']:
                     o['fails'].append(('single-vs-dict-specification-differ:' + which, [cs, S['value']]))
             stage = 'grad:' + which
-            g = torch.autograd.grad(c, [q for _, q in train], allow_unused=True, retain_graph=True)
-            gw = torch.autograd.grad(c, [q for _, q in netw], allow_unused=True, retain_graph=True)
+            g = torch.autograd.grad(c, [q for _, q in train], allow_unused=True, retain_graph=True) if (train and c.requires_grad) else [None] * len(train)
+            gw = torch.autograd.grad(c, [q for _, q in netw], allow_unused=True, retain_graph=True) if c.requires_grad else [None] * len(netw)
             bad_w = [n for (n, _), gg in zip(netw, gw) if gg is not None and bool((gg != 0).any())]
             if bad_w:
                 o['fails'].append(('gradient-reaches-network-weight:' + which, bad_w[:3]))
@@ -305,7 +305,7 @@ def pit_case(torch, seed, style):
             plist = pid_params(maskers, layers)
             uniq = list({id(t): t for t in plist}.values())
             req = [t for t in uniq if t.requires_grad]
-            gg = torch.autograd.grad(c, req, allow_unused=True) if req else []
+            gg = torch.autograd.grad(c, req, allow_unused=True) if (req and c.requires_grad) else [None] * len(req)
             gmap = {id(t): ([0.0] * t.numel() if g_ is None else [float(v) for v in g_.flatten()]) for t, g_ in zip(req, gg)}
             S = o['specs'][which]
             S['value64'] = float(c)
